@@ -324,10 +324,10 @@ fn single_tick(
     })
 }
 
-fn multi_tick(n_ticks: usize, lists_per_side: Rc<Vec<Vec<(K, V)>>>) -> impl Iterator<Item = JoinCase> {
-    let nl = lists_per_side.len();
+fn multi_tick(n_ticks: usize, lhs_lists: Rc<Vec<Vec<(K, V)>>>, rhs_lists: Rc<Vec<Vec<(K, V)>>>) -> impl Iterator<Item = JoinCase> {
+    let (nl, nr) = (lhs_lists.len(), rhs_lists.len());
     // per tick: lhs list, rhs list, drain flag; global: 4 kinds x 4 persistence
-    let per_tick = nl * nl * 2;
+    let per_tick = nl * nr * 2;
     let total = per_tick.pow(n_ticks as u32) * 16;
     (0..total).map(move |mut i| {
         let g = i % 16;
@@ -338,9 +338,9 @@ fn multi_tick(n_ticks: usize, lists_per_side: Rc<Vec<Vec<(K, V)>>>) -> impl Iter
             i /= per_tick;
             let drain = j % 2 == 1;
             j /= 2;
-            let rhs: Script<(K, V)> = lists_per_side[j % nl].iter().map(|e| Some(*e)).collect();
-            j /= nl;
-            let lhs: Script<(K, V)> = lists_per_side[j].iter().map(|e| Some(*e)).collect();
+            let rhs: Script<(K, V)> = rhs_lists[j % nr].iter().map(|e| Some(*e)).collect();
+            j /= nr;
+            let lhs: Script<(K, V)> = lhs_lists[j].iter().map(|e| Some(*e)).collect();
             ticks.push(TickIn { lhs, rhs, drain });
         }
         JoinCase { lhs_set: g & 1 != 0, rhs_set: g & 2 != 0, lhs_static: g & 4 != 0, rhs_static: g & 8 != 0, via_method: false, ticks }
@@ -404,11 +404,13 @@ pub fn run(ctx: &mut Ctx) {
     ctx.check_all("x/drain(v<=2)", single_tick(s.clone(), s.clone(), vec![true], vec![false]), |c: &JoinCase, o| run_case(c, o));
     let s = Rc::new(side_scripts(3, 1, |_| 1));
     ctx.check_all("x/drain(v<=1,pending)", single_tick(s.clone(), s.clone(), vec![true], vec![false]), |c: &JoinCase, o| run_case(c, o));
-    // (4) multi-tick histories, exhaustive over short inputs
-    let l = Rc::new(lists(if th { 2 } else { 1 }, &entries(1)));
-    ctx.check_all("x/2-ticks", multi_tick(2, l), |c: &JoinCase, o| run_case(c, o));
-    let l = Rc::new(lists(1, &entries(0)));
-    ctx.check_all("x/3-ticks(v=0)", multi_tick(3, l), |c: &JoinCase, o| run_case(c, o));
+    // (4) multi-tick histories, exhaustive over short inputs (no pendings: arrival order within a
+    // tick is covered by (1)-(3); here the persisted / cleared state matters)
+    let l2 = Rc::new(lists(2, &entries(1)));
+    let l1 = Rc::new(lists(1, &entries(1)));
+    ctx.check_all("x/2-ticks", multi_tick(2, l2.clone(), if th { l2.clone() } else { l1.clone() }), |c: &JoinCase, o| run_case(c, o));
+    let one_key = Rc::new(lists(1, &[(0u8, 0u8), (0, 1)]));
+    ctx.check_all("x/3-ticks(one key)", multi_tick(3, one_key.clone(), one_key), |c: &JoinCase, o| run_case(c, o));
     // (5) random histories
     ctx.check("r/single-tick", if th { 1_500_000 } else { 100_000 }, case_strategy(1, 8), |c: &JoinCase, o| run_case(c, o));
     ctx.check("r/multi-tick", if th { 1_500_000 } else { 100_000 }, case_strategy(4, 5), |c: &JoinCase, o| run_case(c, o));
